@@ -43,7 +43,8 @@ func init() {
 			"compared with the harness's reference stack and pairwise across formats; then two ill-typed documents (x4 formats) and one malformed document per format plus two single-byte JSON corruptions " +
 			"(judged only when encoding/json.Valid is false). 2% of the generated types additionally carry a []time.Time field (family slice-of-time.Time, reported under its own key). " +
 			"Before a disagreement about a valid document is reported, and on 1 case in 32 regardless, the document is re-parsed untyped with the format's own library and compared with the tree (renderer self-check; a failure is a harness failure, exit 2). " +
-			"Shard 0 also runs a hand-written four-format corpus through dials.Config (case 0), the smallest []time.Time case (case 1) and an observed-only map[string]struct probe (case 2). " +
+			"Shard 0 also runs a hand-written four-format corpus through dials.Config (case 0), the smallest []time.Time case (case 1), an observed-only map[string]struct probe (case 2) and three documents of 4.9-5.7 MB in every format (long string list, big map, long struct list, each with ordinary keys around it; case 3). " +
+			"35% of nested struct / *struct fields outside slice elements are EMBEDDED (anonymous) fields carrying a dials tag: about half keyed by their own Go name in another case (Limits `dials:\"limits\"`, MaxConn `dials:\"maxConn\"`), the others by a differently spelled tag; the static type embeds three such members. " +
 			"distinct_nontrivial counts distinct (schema signature, presence pattern) pairs of data trees with >= 3 present leaves.",
 		Assumptions: []string{
 			"the Cue decoder's format tag is `json` (cue.go copies dials tags to json tags); a `cue:\"...\"` tag is inert and is generated only as a decoy",
@@ -51,6 +52,7 @@ func init() {
 			"data outside what all four formats (as read by the pinned libraries) can express is not generated: uint64 > MaxInt64 (TOML), MinInt64 (cue v0.6.0: 'value was rounded up'), +-MaxFloat32 (go-toml and cue range-check the float64 literal), NaN/Inf/-0 (JSON), []uint8 (base64 in JSON), empty []struct (TOML), slices of a user-defined TextUnmarshaler struct (go-toml cannot fill them), invalid UTF-8, null, the empty document",
 			"float32 literals are kept only when parse-as-float64-then-narrow equals parse-as-float32 (the libraries differ in which they do)",
 			"ill-typed classes on which yaml.v2 legitimately coerces (number for string, float for int, list of small ints for net.IP) are not judged",
+			"embedded struct members are generated only with a dials tag (a named member of the document in all four formats) and not inside slice elements, where go-toml alone falls back to filling an embedded struct VALUE whose key is absent from its parent's table",
 			"map[string]struct values are observed only, not judged: the statement does not say whether 'string-keyed maps' includes struct values (on the pinned tree their dials tags are not honoured; see observed_only_map_of_struct)",
 			"unknown document keys (the decoys) are expected to be ignored, which is what all four libraries do by default",
 			"trusted base: reflect, encoding/json (renderer and json.Valid), net.ParseIP, time.Format for producing literals",
@@ -63,6 +65,7 @@ func init() {
 				"duration_ns_leaves_compared": 10000, "stacks_compared": 90000, "pairwise_compared": 130000,
 				"illtyped_judged": 90000, "malformed_judged": 55000, "decoys_rendered": 150000,
 				"config_api_valid": 10000, "config_api_rejected": 18000, "selfcheck_ok": 2500, "fixed_corpus_documents": 4,
+				"large_documents_judged": 12, "embedded_members_compared": 60000, "embedded_members_keyed_by_own_name_compared": 30000,
 			},
 			"thorough": {
 				"decode_ok_json": 300000, "decode_ok_yaml": 300000, "decode_ok_toml": 300000, "decode_ok_cue": 300000,
@@ -70,6 +73,7 @@ func init() {
 				"duration_ns_leaves_compared": 150000, "stacks_compared": 1200000, "pairwise_compared": 1800000,
 				"illtyped_judged": 1200000, "malformed_judged": 750000, "decoys_rendered": 2000000,
 				"config_api_valid": 150000, "config_api_rejected": 250000, "selfcheck_ok": 35000, "fixed_corpus_documents": 4,
+				"large_documents_judged": 12, "embedded_members_compared": 800000, "embedded_members_keyed_by_own_name_compared": 400000,
 			},
 		},
 		Plan: func(tier string) fw.Plan {
@@ -164,10 +168,19 @@ func (c *c13Run) reportDiffs(prefix string, fm c13Fmt, doc string, diffs []c13Di
 		if n >= 3 {
 			break
 		}
-		c.w.Violation(c.i, c13DiffKey(prefix, fm, d),
-			fmt.Sprintf("%s%s: %s decoder, leaf %s (%s): %s", prefix, d.class, c13FmtNames[fm], d.path, d.sig, d.text),
+		c.w.Violation(c.i, c13DiffKey(prefix, fm, d)+c.keySuffix(),
+			c13Trim(fmt.Sprintf("%s%s: %s decoder, leaf %s (%s): %s", prefix, d.class, c13FmtNames[fm], d.path, d.sig, d.text), 1500),
 			c.witness(fm, doc, map[string]any{"path": d.path}))
 	}
+}
+
+// keySuffix marks failures that belong to a special family, so that they are
+// never folded into the key of the same leaf kind in an ordinary document.
+func (c *c13Run) keySuffix() string {
+	if strings.HasPrefix(c.family, "large-document") {
+		return ":document-over-4MiB"
+	}
+	return ""
 }
 
 type c13Step struct {
@@ -281,6 +294,8 @@ func (c *c13Run) judgeValid(tree *c13Val) [4]c13Result {
 		w.Count("absent_leaves_checked", m.absent)
 		w.Count("own_tag_leaves_compared", m.ownSeen)
 		w.Count("duration_ns_leaves_compared", m.nsSeen)
+		w.Count("embedded_members_compared", m.embSeen)
+		w.Count("embedded_members_keyed_by_own_name_compared", m.embFoldSeen)
 		if len(m.diffs) > 0 {
 			if c.rendererOK(fm, doc, tree) {
 				c.reportDiffs("", fm, doc, m.diffs)
@@ -336,13 +351,13 @@ func (c *c13Run) judgeValid(tree *c13Val) [4]c13Result {
 	}
 	if len(failed) == 4 && len(sigs) == 1 {
 		fm := failed[0]
-		c.w.Violation(c.i, "valid-document-rejected:all-formats:"+info[fm][0],
+		c.w.Violation(c.i, "valid-document-rejected:all-formats:"+info[fm][0]+c.keySuffix(),
 			fmt.Sprintf("all four decoders reject a well-formed, well-typed document; smallest rejected field kind %s; json error: %v", info[fm][0], res[c13JSON].err),
 			c.witness(fm, res[fm].doc, map[string]any{"minimal_document_json": info[c13JSON][1], "minimal_document_yaml": info[c13YAML][1],
 				"errors": []string{fmt.Sprint(res[0].err), fmt.Sprint(res[1].err), fmt.Sprint(res[2].err), fmt.Sprint(res[3].err)}}))
 	} else {
 		for _, fm := range failed {
-			c.w.Violation(c.i, "valid-document-rejected:"+c13FmtNames[fm]+":"+info[fm][0],
+			c.w.Violation(c.i, "valid-document-rejected:"+c13FmtNames[fm]+":"+info[fm][0]+c.keySuffix(),
 				fmt.Sprintf("%s decoder rejects a well-formed, well-typed document (smallest rejected field kind %s): %v", c13FmtNames[fm], info[fm][0], res[fm].err),
 				c.witness(fm, res[fm].doc, map[string]any{"minimal_document": info[fm][1]}))
 		}
@@ -489,6 +504,9 @@ func runC13(w *fw.Worker) {
 		}
 		if w.Shard == 0 && i == 2 {
 			c13ObserveMapOfStruct(w)
+		}
+		if w.Shard == 0 && i == 3 {
+			c13FixedLarge(w, i)
 		}
 		c := &c13Run{w: w, i: i, r: r}
 		switch {
